@@ -103,6 +103,10 @@ end SR
 namespace NewF
 variable {B : Type} (b : Base B)
 theorem ne_spec (l r : B) : ne b l r = !eq b l r := rfl
+theorem ltB_spec (l r : B) : ltB b l r = b.lt l r := rfl
+theorem leB_spec (l r : B) : leB b l r = !b.lt r l := rfl
+theorem gtB_spec (l r : B) : gtB b l r = b.lt r l := rfl
+theorem geB_spec (l r : B) : geB b l r = !b.lt l r := rfl
 theorem lt_spec (l r : B) : lt b l r = decide (diff b l r < 0) := rfl
 theorem le_spec (l r : B) : le b l r = decide (diff b l r ≤ 0) := rfl
 theorem gt_spec (l r : B) : gt b l r = decide (diff b l r > 0) := rfl
